@@ -83,9 +83,15 @@ class Gen:
                 cid = self.add_comment(); self.features.add('comment')
                 inner = [self.run() for _ in range(self.r.randint(1, 2))]
                 out.append(['crs', cid]); out += inner; out.append(['cre', cid]); out.append(self.ref_run(cid))
-                if self.r.random() < .3:     # a reply, anchored like Word does (same range)
+                if self.r.random() < .3:     # a reply, anchored like Word does (same range) ...
                     rid = self.add_comment(parent=cid); self.features.add('thread')
-                    i = out.index(['crs', cid]); out.insert(i + 1, ['crs', rid]); out.append(['cre', rid]); out.append(self.ref_run(rid))
+                    y = self.r.random()
+                    if y < .7:
+                        i = out.index(['crs', cid]); out.insert(i + 1, ['crs', rid]); out.append(['cre', rid]); out.append(self.ref_run(rid))
+                    elif y < .85:            # ... or over a wider range than its parent's (starts one node earlier)
+                        i = out.index(['crs', cid]); out.insert(max(0, i - 1), ['crs', rid]); out.append(['cre', rid]); out.append(self.ref_run(rid)); self.features.add('reply_wider')
+                    else:                    # ... or on text of its own, away from the parent's range
+                        out.append(['crs', rid]); out.append(self.run()); out.append(['cre', rid]); out.append(self.ref_run(rid)); self.features.add('reply_apart')
             elif x < .86: out.append(['other', self.r.choice([2, 3])]); self.features.add('bookmark')
             elif x < .89: out.append(['other', 1]); self.features.add('prooferr')
             elif x < .92: out.append(['other', 4]); self.features.add('hyperlink')
